@@ -126,11 +126,14 @@ func c10xProperty(t *rapid.T, st *Stats) {
 		k2 = k + rapid.IntRange(1, 12).Draw(t, "secondFaultAfter")
 	}
 	root := tmp + "/fault"
+	failingCalls := 1
 	vfs.Reset(root, true)
 	if readFault {
 		vfs.FailReadAt(k)
 	} else {
-		vfs.FailAt(k)
+		// one failing call, or (one case in four) a run of 2-6 failing mutating calls: a disk that is full for a while
+		failingCalls = rapid.SampledFrom([]int{1, 1, 1, 2, 3, 6}).Draw(t, "failingCalls")
+		vfs.FailRun(k, failingCalls)
 		vfs.FailShort(rapid.Bool().Draw(t, "shortWrite")) // a failing write may have taken half of its buffer
 	}
 	h := olareg.New(conf(root))
@@ -189,7 +192,7 @@ func c10xProperty(t *rapid.T, st *Stats) {
 		// fails the entries of the removed blobs stay listed until the next collection. The directory is judged
 		// after that next collection (below) while the finding is listed.
 		st.Exclude("C10/gc-save-failed-entries-without-blob: layout judged after the next collection")
-	} else if _, problems := validateLayoutTree(root, layoutOpts{}); len(problems) > 0 {
+	} else if _, problems := validateLayoutTree(root, layoutOpts{allowTemp: failingCalls > 1}); len(problems) > 0 {
 		fail("layout-invalid-after-io-error", "after a history with an I/O error (%s in %q) the directory is not a valid layout: %s", faultOp, stepName(steps, faultStep), strings.Join(problems, "; "))
 	}
 	u := c12fUniverse()
@@ -202,7 +205,7 @@ func c10xProperty(t *rapid.T, st *Stats) {
 		// Close collects under the configured policy: the comparison is between the collected running server and the reopened one
 		_ = h.VerifGC("r")
 		_ = h.VerifGC("r/n")
-		if _, problems := validateLayoutTree(root, layoutOpts{}); len(problems) > 0 {
+		if _, problems := validateLayoutTree(root, layoutOpts{allowTemp: failingCalls > 1}); len(problems) > 0 {
 			fail("layout-invalid-after-io-error", "after a history with an I/O error (%s in %q) and a collection the directory is not a valid layout: %s", faultOp, stepName(steps, faultStep), strings.Join(problems, "; "))
 		}
 	}
